@@ -550,6 +550,24 @@ pub fn dump_body<'tcx>(tcx: TyCtxt<'tcx>, body: &Body<'tcx>, elab: bool) -> (Str
                     let (p, rv) = &**b;
                     let mut so: Vec<(&'static str, J)> =
                         vec![("pl", place(tcx, p)), ("rv", rvalue(tcx, rv))];
+                    // the discriminant of an enum from another crate (io::ErrorKind, ..): its variant names are not among this
+                    // crate's items, so they travel with the read
+                    if let Rvalue::Discriminant(dp) = rv {
+                        let dty = dp.ty(&body.local_decls, tcx).ty;
+                        if let rustc_middle::ty::Adt(adt, _) = dty.kind() {
+                            if adt.is_enum() && !adt.did().is_local() && adt.variants().len() <= 96 {
+                                let mut vs = Vec::new();
+                                for (vi, d) in adt.discriminants(tcx) {
+                                    vs.push(J::Arr(vec![
+                                        J::Int(d.val as i128),
+                                        J::s(adt.variant(vi).name.to_string()),
+                                    ]));
+                                }
+                                so.push(("ext_enum", J::s(ty_str(dty))));
+                                so.push(("ext_variants", J::Arr(vs)));
+                            }
+                        }
+                    }
                     jline(tcx, s.source_info.span, &mut so);
                     stmts.push(J::Obj(so));
                 }
